@@ -58,7 +58,7 @@ func runOne(src string) (status string, text string) {
 	}
 	var sb strings.Builder
 	for _, s := range stmts {
-		sb.WriteString(parser.Explain(s))
+		sb.WriteString(rdr.Twice(func() string { return parser.Explain(s) }))
 	}
 	return "ok", sb.String()
 }
